@@ -12,6 +12,7 @@ import Spg.Generated.Classes
 import Spg.Generated.AgileWords
 import Spg.Generated.AgileSyllables
 import Spg.Generated.Cli
+import Std.Data.HashMap
 namespace Spg.Driver
 open Spg
 
@@ -232,6 +233,34 @@ def cliLine (env : Env) (as : List (String × String)) : String :=
       let kept := if list == "file" then showList wl.words else s!"@{list}"
       s!"words list={list} L={L} sep={showSep r.sep} cap={if cap.isEmpty then "_" else cap} ent={if ent then 1 else 0} gen={if okGen then 1 else 0} size={wl.words.length} kept={kept} dup={dups} allcap={if wl.unCap == 0 then 1 else 0} D={d} failexit={t.exitCatchall}"
 
+/-- All index tuples with the given bounds, in lexicographic order. -/
+def cellTuples : List Nat → List (List Nat)
+  | [] => [[]]
+  | b :: bs => (List.range b).flatMap fun i => (cellTuples bs).map (i :: ·)
+
+/-- The complete cell of streams of a small wordlist recipe (constant separators): number of
+streams, of distinct passwords, the largest multiplicity, and the entropy integer. -/
+def wlCell (cfg : Cfg) (title : Word → Word) (r : WLRecipe) : String :=
+  let L := r.length.toNat
+  let size := r.size
+  let capBounds : List Nat :=
+    if r.capitalize == "one" then [L] else if r.capitalize == "random" then List.replicate L 2 else []
+  let bounds := capBounds ++ List.replicate L size
+  let total := bounds.foldl (· * ·) 1
+  if total > 20000 then "cell-too-large" else
+  let outcomes := (cellTuples bounds).map fun tape =>
+    match (r.generate cfg title).run tape with
+    | .done (.ok p) _ => some (showToks p.tokens, p.entD)
+    | _ => none
+  if outcomes.any (·.isNone) then "cell-generation-failed" else
+  let counts : Std.HashMap String Nat := outcomes.foldl (fun m o =>
+    match o with
+    | some (k, _) => m.insert k (m.getD k 0 + 1)
+    | none => m) {}
+  let maxm := counts.fold (fun acc _ v => max acc v) 0
+  let d : Int := match outcomes.head? with | some (some (_, d)) => d | _ => 0
+  s!"streams={total} distinct={counts.size} maxmult={maxm} D={d}"
+
 /-- Execute one line. -/
 def exec (env : Env) (line : String) : String :=
   let fields := (line.trimAscii.toString.splitOn " ").filter (· != "")
@@ -299,6 +328,15 @@ def exec (env : Env) (line : String) : String :=
         | .done d rest => s!"ok D={d} used={tape.length - rest.length} warn={r.sepWarnings cfg}"
         | .fault => "panic fault"
         | .zero => "panic zero"
+    else if op == "wlcell" then
+      let cfg := cfgOf as
+      let (ws, title) := wordsAndTitle as
+      match (newListOf env as ws title).map (·.1) with
+      | none => "err empty-list"
+      | some wl =>
+        let r : WLRecipe := { list := some wl, length := argInt as "L", sep := parseSep (arg as "sep"),
+                              capitalize := strOfCps (parseCps (arg as "cap")) }
+        wlCell cfg title r
     else if op == "explode" then
       let bytes := parseHex (arg as "pw")
       let ch := explode (bytes.length + 1) bytes
